@@ -13,7 +13,7 @@ def queries():
     qs = []
     for lcp in (0, 1):
         qs.append(mk(0, 3, 2, lcp, 0, 0, True)); qs.append(mk(1, 3, 2, lcp, 0, 0, True)); qs.append(mk(0, 4, 2, lcp, 0, 0, lcp == 0))
-        qs.append(mk(2, 2, 1, lcp, 2, 0, True)); qs.append(mk(2, 2, 2, lcp, 2, 0, False)); qs.append(mk(2, 3, 2, lcp, 2, 0, False))   # measured: multikey quicksort on 3 strings: > 30 GB (3-way recursion)
+        qs.append(mk(2, 2, 1, lcp, 2, 0, False)); qs.append(mk(2, 2, 2, lcp, 2, 0, False)); qs.append(mk(2, 3, 2, lcp, 2, 0, False))   # measured: multikey quicksort on 3 strings: > 30 GB (3-way recursion)
         for algo in (3, 4, 5, 6, 7):
             qs.append(mk(algo, 2, 1, lcp, 2, 0, False)); qs.append(mk(algo, 3, 1, lcp, 2, 0, False))   # radix steps (256-entry bucket tables): measured 12-30 GB / 20 M variables per query -> thorough tier only
             qs.append(mk(algo, 3, 2, lcp, 2, 0, False)); qs.append(mk(algo, 4, 2, lcp, 2, 0, False))
